@@ -25,6 +25,10 @@ def apply_mutation(P, cls, rules, mu):
         cls(r.name, P.Alternation(r.definition, cls._mk(mu[2])))
     elif kind == "assign":
         r.definition = cls._mk(mu[2])
+    elif kind == "extend_text":
+        cls.create(f"{r.name} =/ {G.render_elem(mu[2])}")
+    elif kind == "redefine_text":
+        cls.create(f"{r.name} = {G.render_elem(mu[2])}")
     elif kind == "flag":
         r.first_match_alternation = mu[2]
     elif kind == "exclude":
@@ -44,7 +48,16 @@ def gen_history(rng, gg):
         if t < 0.4:
             mus.append(("redefine", k, gg.expr(2, k, n)))
         elif t < 0.6:
-            mus.append(("extend", k, gg.expr(1, k, n)))
+            e = gg.expr(1, k, n)
+            kind = rng.choice(["extend", "extend_text", "extend_text", "redefine_text"])
+            if kind != "extend":
+                try:
+                    G.render_elem(e)
+                    if G.has_nested_first(e, top=False):
+                        kind = "extend"
+                except ValueError:
+                    kind = "extend"
+            mus.append((kind, k, e))
         elif t < 0.7:
             mus.append(("assign", k, gg.expr(2, k, n)))
         elif t < 0.88:
@@ -76,6 +89,8 @@ def run_history(P, gr, strings, mus, warm=True):
 
 
 CORPUS = [
+    ([("r0", ("rep", 1, None, ("ref", 1)), None), ("r1", ("alt", [("lit", "a", False), ("lit", "b", False)], False), None)],
+     ["abc", "cab", "abca"], [("extend_text", 1, ("lit", "c", False))]),
     ([("r0", ("rep", 0, None, ("ref", 1)), None), ("r1", ("lit", "a", False), None)], ["aab", "bb", "ab"],
      [("redefine", 1, ("lit", "b", False))]),
     ([("r0", ("rep", 1, None, ("ref", 1)), None), ("r1", ("alt", [("lit", "a", False), ("lit", "ab", False)], False), None)],
